@@ -3,8 +3,11 @@ import GqlProofs.Lemmas.VarsLemmas
 namespace Gql
 open Gql.Strconv
 
-/-- conformance with every legacy leniency -/
+/-- conformance with every legacy leniency (what a SUPPLIED value has to satisfy) -/
 abbrev CL (s : Schema) (t : GType) (v : GoVal) : Prop := conformsWith .legacy s t v = true
+/-- conformance with the five leniencies other than `flatNested` (what a RESULT satisfies since
+    the repair of R14d) -/
+abbrev CR (s : Schema) (t : GType) (v : GoVal) : Prop := conformsWith .afterR14d s t v = true
 
 theorem leafName_legacy (t : GType) : leafName .legacy t = some t.name := by
   cases t <;> simp [leafName, Leniency.legacy, GType.name]
@@ -106,25 +109,136 @@ end Gql
 namespace Gql
 open Gql.Strconv
 
+/- ---------- the representation invariant `wfB` ---------- -/
+
+mutual
+  theorem safe_wf : (v : GoVal) → safeB v = true → wfB v = true
+    | .slice e xs, h => by
+      simp only [safeB] at h
+      simpa [wfB] using safeItems_wf _ xs h
+    | .map e kvs, h => by
+      simp only [safeB, Bool.and_eq_true, decide_eq_true_eq] at h
+      obtain ⟨he, hk⟩ := h
+      subst he
+      simpa [wfB] using safeFields_wf kvs hk
+    | .nil, _ => rfl
+    | .bool _, _ => rfl
+    | .int _ _, _ => rfl
+    | .uint _ _, _ => rfl
+    | .float _ _, _ => rfl
+    | .jsonNumber _, _ => rfl
+    | .str _, _ => rfl
+  theorem safeItems_wf (b : Bool) : (xs : GoVals) → safeItemsB b xs = true → wfItemsB b xs = true
+    | .nil, _ => rfl
+    | .cons v r, h => by
+      simp only [safeItemsB, Bool.and_eq_true] at h
+      simp only [wfItemsB, Bool.and_eq_true]
+      exact ⟨⟨h.1.1, safe_wf v h.1.2⟩, safeItems_wf b r h.2⟩
+  theorem safeFields_wf : (kvs : GoFields) → safeFieldsB kvs = true → wfFieldsB true kvs = true
+    | .nil, _ => rfl
+    | .cons _ v r, h => by
+      simp only [safeFieldsB, Bool.and_eq_true] at h
+      simp only [wfFieldsB, Bool.and_eq_true, Bool.true_or, true_and]
+      exact ⟨safe_wf v h.1, safeFields_wf r h.2⟩
+end
+
+theorem wfFields_lookup (b : Bool) : ∀ (kvs : GoFields) (k : Bytes) (x : GoVal),
+    wfFieldsB b kvs = true → kvs.lookup k = some x → wfB x = true
+  | .nil, _, _, _, h => by simp [GoFields.lookup] at h
+  | .cons a w r, k, x, hs, h => by
+    simp only [wfFieldsB, Bool.and_eq_true] at hs
+    simp only [GoFields.lookup] at h
+    split at h
+    · cases h; exact hs.1.2
+    · exact wfFields_lookup b r k x hs.2 h
+
+/-- the list loop calls `f` on a null item only when the element type is nullable -/
+theorem listLoop_nil_nullable {b1 b2 : Bool} {x : GoVal} (h1 : (b1 || !x.isNil) = true)
+    (hcond : ¬ (b1 && b2 && x.isNil) = true) : x = .nil → b2 = false := by
+  intro hx
+  subst hx
+  cases b1 <;> cases b2 <;> simp_all [GoVal.isNil]
+
+theorem jsonNumberPre_wf {typ : GType} {val rv : GoVal} (hs : wfB val = true)
+    (h : jsonNumberPre typ val = .ok rv) : wfB rv = true := by
+  unfold jsonNumberPre at h
+  cases val with
+  | jsonNumber t =>
+    simp only [] at h
+    split at h
+    · split at h <;> first | (cases h; rfl) | simp at h
+    · split at h
+      · split at h <;> first | (cases h; rfl) | simp at h
+      · cases h; rfl
+  | _ => simp only [] at h; cases h; exact hs
+
+theorem jsonNumberPre_ne_nil {typ : GType} {val rv : GoVal} (hn : val ≠ .nil)
+    (h : jsonNumberPre typ val = .ok rv) : rv ≠ .nil := by
+  unfold jsonNumberPre at h
+  cases val with
+  | jsonNumber t =>
+    simp only [] at h
+    split at h
+    · split at h <;> first | (cases h; simp) | simp at h
+    · split at h
+      · split at h <;> first | (cases h; simp) | simp at h
+      · cases h; simp
+  | nil => exact absurd rfl hn
+  | _ => simp only [] at h; cases h; exact hn
+
+theorem suppliedValue_wf {vars : VarMap} {v : VarDef} {x : GoVal}
+    (hvars : wfFieldsB true vars = true)
+    (h : suppliedValue vars v = .ok (some x)) : wfB x = true := by
+  unfold suppliedValue at h
+  cases hl : vars.lookup v.var with
+  | some y => simp only [hl] at h; cases h; exact wfFields_lookup true vars v.var _ hvars hl
+  | none =>
+    simp only [hl] at h
+    cases hdv : v.default with
+    | none => simp only [hdv] at h; split at h <;> simp at h
+    | some dv =>
+      simp only [hdv] at h
+      cases hvv : valueValueConst dv with
+      | ok y => simp only [hvv] at h; cases h; exact safe_wf _ (valueValueConst_safe dv _ hvv)
+      | err e => simp [hvv] at h
+      | diverge => simp [hvv] at h
+
+/- ---------- on a scalar / enum NAMED type `flatNested` is irrelevant ---------- -/
+
+theorem leafOK_afterR14d (s : Schema) (n : Name) (v : GoVal) : leafOK .afterR14d s n v = leafOK .legacy s n v := by
+  cases v <;> rfl
+
+theorem conformsWith_named_afterR14d (s : Schema) (n : Name) (nn : Bool) (p : Pos) (d : Definition)
+    (hd : s.type? n = some d) (hk : d.kind = .scalar ∨ d.kind = .enum) (v : GoVal) :
+    conformsWith .afterR14d s (.named n nn p) v = conformsWith .legacy s (.named n nn p) v := by
+  have hno : ¬ d.kind = .inputObject := by rcases hk with h | h <;> simp [h]
+  cases v <;> simp [conformsWith, leafName, leafOK_afterR14d, hd, hno]
+
+theorem storeElem_eq_ret (ret upd : GoVal) : storeElem ret upd = ret := rfl
+
 /-- the type's named type is a scalar or an enum (any list depth around it) -/
 def LeafTyped (s : Schema) (t : GType) : Prop :=
   ∃ d, s.type? t.name = some d ∧ (d.kind = .scalar ∨ d.kind = .enum)
 
-/-- what a successful `validateVarType` call guarantees on scalar-based and enum-based types -/
+/-- what a successful `validateVarType` call guarantees on scalar-based and enum-based types: the
+    RETURNED value conforms with list nesting exact (`CR`), the ARGUMENT conformed up to
+    single-value-to-list coercion (`CL`) -/
 def ConfTriple (s : Schema) (t : GType) (val : GoVal) : Res (GoVal × GoVal) → Prop
-  | .ok (ret, upd) => CL s t ret ∧ CL s t upd ∧ CL s t val ∧ ((∀ e xs, val ≠ .slice e xs) → upd = val)
+  | .ok (ret, _) => CR s t ret ∧ CL s t val
   | _ => True
 
 theorem listLoop_conforms (s : Schema) (e : GType) (f : Path → GoVal → Res (GoVal × GoVal)) (path : Path) (b1 b2 : Bool)
-    (hf : ∀ p x, ConfTriple s e x (f p x)) :
-    ∀ (xs xs' : GoVals) (i : Nat), listLoop f path b1 b2 i xs = .ok xs' →
-      allConform .legacy s e xs' = true ∧ allConform .legacy s e xs = true
-  | .nil, xs', i, h => by simp only [listLoop] at h; cases h; simp [allConform]
-  | .cons x rest, xs', i, h => by
+    (hf : ∀ p x, wfB x = true → (x = .nil → b2 = false) → ConfTriple s e x (f p x)) :
+    ∀ (xs xs' : GoVals) (i : Nat), wfItemsB b1 xs = true → listLoop f path b1 b2 i xs = .ok xs' →
+      allConform .afterR14d s e xs' = true ∧ allConform .legacy s e xs = true
+  | .nil, xs', i, _, h => by simp only [listLoop] at h; cases h; simp [allConform]
+  | .cons x rest, xs', i, hw, h => by
+    simp only [wfItemsB, Bool.and_eq_true] at hw
     simp only [listLoop] at h
     split at h
     · simp at h
-    · have hx := hf (path ++ [.idx i]) x
+    · rename_i hcond
+      have hx := hf (path ++ [.idx i]) x hw.1.2 (listLoop_nil_nullable hw.1.1 hcond)
       cases hfx : f (path ++ [.idx i]) x with
       | ok pr =>
         obtain ⟨ret, upd⟩ := pr
@@ -133,12 +247,8 @@ theorem listLoop_conforms (s : Schema) (e : GType) (f : Path → GoVal → Res (
         cases hl : listLoop f path b1 b2 (i + 1) rest with
         | ok rest' =>
           simp only [hl] at h; cases h
-          obtain ⟨a, b⟩ := listLoop_conforms s e f path b1 b2 hf rest rest' (i + 1) hl
-          have hst : conformsWith .legacy s e (storeElem ret upd) = true := by
-            unfold storeElem; split
-            · exact hx.2.1
-            · exact hx.1
-          simp [allConform, hst, a, b, hx.2.2.1]
+          obtain ⟨a, b⟩ := listLoop_conforms s e f path b1 b2 hf rest rest' (i + 1) hw.2 hl
+          simp [allConform, storeElem_eq_ret, hx.1, a, b, hx.2]
         | err m p a => simp [hl] at h
         | panic m => simp [hl] at h
         | outOfFuel => simp [hl] at h
@@ -146,8 +256,9 @@ theorem listLoop_conforms (s : Schema) (e : GType) (f : Path → GoVal → Res (
       | panic m => simp [hfx] at h
       | outOfFuel => simp [hfx] at h
 
+/-- the list branch on a value that is neither null nor a slice: the single-value-to-list coercion -/
 theorem vvt_list_nonslice (s : Schema) (fuel : Nat) (path : Path) (e : GType) (nn : Bool) (p : Pos) (val : GoVal)
-    (h : ∀ t xs, val ≠ .slice t xs) :
+    (hn : val ≠ .nil) (h : ∀ t xs, val ≠ .slice t xs) :
     validateVarType s (fuel + 1) path (.list e nn p) val =
       (match val.type? with
        | none => .panic typeOnZeroMsg
@@ -158,36 +269,47 @@ theorem vvt_list_nonslice (s : Schema) (fuel : Nat) (path : Path) (e : GType) (n
          | .err m p a => .err m p a
          | .panic m => .panic m
          | .outOfFuel => .outOfFuel) := by
-  cases val <;> first | exact absurd rfl (h _ _) | rfl
+  cases val <;> first | exact absurd rfl hn | exact absurd rfl (h _ _) | rfl
+
+/-- since the repair of R14a a null where a list is expected is returned as it is -/
+theorem vvt_list_nil (s : Schema) (fuel : Nat) (path : Path) (e : GType) (nn : Bool) (p : Pos) :
+    validateVarType s (fuel + 1) path (.list e nn p) .nil = .ok (.nil, .nil) := by
+  rfl
 
 theorem validateVarType_conforms (s : Schema) (hplain : EnumNamesPlain s) :
     ∀ (fuel : Nat) (path : Path) (typ : GType) (val : GoVal),
-      LeafTyped s typ → ConfTriple s typ val (validateVarType s fuel path typ val)
-  | 0, _, _, _, _ => by simp [validateVarType, ConfTriple]
-  | fuel + 1, path, typ, val, ht => by
+      LeafTyped s typ → wfB val = true → (val = .nil → typ.nonNull = false) →
+      ConfTriple s typ val (validateVarType s fuel path typ val)
+  | 0, _, _, _, _, _, _ => by simp [validateVarType, ConfTriple]
+  | fuel + 1, path, typ, val, ht, hw, hnn => by
     have ih := validateVarType_conforms s hplain fuel
     cases typ with
     | list e nn p =>
       have hte : LeafTyped s e := by simpa [LeafTyped, GType.name] using ht
+      by_cases hvn : val = .nil
+      · subst hvn
+        have := hnn rfl
+        simp only [GType.nonNull] at this
+        subst this
+        rw [vvt_list_nil]
+        simp [ConfTriple, CL, CR, conformsWith, GType.nonNull]
       by_cases hsl : ∃ t xs, val = GoVal.slice t xs
       · obtain ⟨t, xs, rfl⟩ := hsl
-        simp only [validateVarType, legacyNullIntoListPanics, Bool.not_true, Bool.false_and, Bool.false_eq_true, if_false]
+        simp only [validateVarType, GoVal.isNil, Bool.and_false, Bool.false_eq_true, if_false]
+        have hxs : wfItemsB (decide (t = .iface)) xs = true := by simpa [wfB] using hw
         cases hr : listLoop (fun p x => validateVarType s fuel p e x) path (decide (t = .iface)) e.nonNull 0 xs with
         | ok xs' =>
-          obtain ⟨a, b⟩ := listLoop_conforms s e _ path _ _ (fun p x => ih p e x hte) xs xs' 0 hr
-          simp only [ConfTriple, CL, conformsWith, a, b, true_and]
-          intro h; exact absurd rfl (h t xs)
+          obtain ⟨a, b⟩ := listLoop_conforms s e _ path _ _ (fun p x h1 h2 => ih p e x hte h1 h2) xs xs' 0 hxs hr
+          simp [ConfTriple, CL, CR, conformsWith, a, b]
         | err m p a => simp [ConfTriple]
         | panic m => simp [ConfTriple]
         | outOfFuel => simp [ConfTriple]
       · have hns : ∀ t xs, val ≠ GoVal.slice t xs := fun t xs h => hsl ⟨t, xs, h⟩
-        rw [vvt_list_nonslice s fuel path e nn p val hns]
+        rw [vvt_list_nonslice s fuel path e nn p val hvn hns]
         cases hty : val.type? with
         | none => simp [ConfTriple]
         | some t =>
-          have hvn : val ≠ .nil := by
-            intro h; subst h; simp [GoVal.type?] at hty
-          have hg := ih (path ++ [.idx 0]) e val hte
+          have hg := ih (path ++ [.idx 0]) e val hte hw (fun h => absurd h hvn)
           revert hg
           simp only []
           cases validateVarType s fuel (path ++ [.idx 0]) e val with
@@ -195,18 +317,11 @@ theorem validateVarType_conforms (s : Schema) (hplain : EnumNamesPlain s) :
             obtain ⟨ret, upd⟩ := pr
             intro hg
             simp only [ConfTriple] at hg
-            obtain ⟨h1, h2, h3, h4⟩ := hg
-            have hu := h4 hns
-            subst hu
-            have hst : conformsWith .legacy s e (storeElem ret upd) = true := by
-              unfold storeElem; split
-              · exact h2
-              · exact h1
-            have hflat : conformsWith .legacy s (.list e nn p) upd = conformsWith .legacy s e upd :=
-              conformsWith_flat s (.list e nn p) e upd (by simp [GType.name]) hvn hns
-            refine ⟨?_, ?_, ?_, fun _ => rfl⟩
-            · simp [CL, conformsWith, allConform, hst]
-            · simp only [CL, hflat]; exact h3
+            obtain ⟨h1, h3⟩ := hg
+            have hflat : conformsWith .legacy s (.list e nn p) val = conformsWith .legacy s e val :=
+              conformsWith_flat s (.list e nn p) e val (by simp [GType.name]) hvn hns
+            refine ⟨?_, ?_⟩
+            · simp [CR, conformsWith, allConform, storeElem_eq_ret, h1]
             · simp only [CL, hflat]; exact h3
           | err m p a => simp [ConfTriple]
           | panic m => simp [ConfTriple]
@@ -216,12 +331,14 @@ theorem validateVarType_conforms (s : Schema) (hplain : EnumNamesPlain s) :
       simp only [GType.name] at hd
       simp only [validateVarType, hd]
       by_cases hnil : (!nn && val.isNil) = true
-      · simp only [hnil, if_true, ConfTriple, CL]
+      · simp only [hnil, if_true, ConfTriple, CL, CR]
         simp only [Bool.and_eq_true, Bool.not_eq_true'] at hnil
         have : val = .nil := (GoVal.isNil_iff val).mp hnil.2
         subst this
         simp [conformsWith, GType.nonNull, hnil.1]
-      · simp only [hnil, if_false]
+      · simp only [hnil]
+        have hcr : CL s (.named n nn p) val → CR s (.named n nn p) val := by
+          intro h; simp only [CR, conformsWith_named_afterR14d s n nn p d hd hk val]; exact h
         cases hty : val.type? with
         | none =>
           rcases hk with hk | hk <;> simp [hk, ConfTriple]
@@ -231,19 +348,19 @@ theorem validateVarType_conforms (s : Schema) (hplain : EnumNamesPlain s) :
             cases hacc : builtinScalarAccepts n val t.kind with
             | none =>
               have := scalar_accept_conforms s n nn p d hd hk val t hty (by simp [hacc])
-              exact ⟨this, this, this, fun _ => rfl⟩
+              exact ⟨hcr this, this⟩
             | some b =>
               cases b
               · simp [ConfTriple]
               · have := scalar_accept_conforms s n nn p d hd hk val t hty (by simp [hacc])
-                exact ⟨this, this, this, fun _ => rfl⟩
+                exact ⟨hcr this, this⟩
           · simp only [hk]
             by_cases hkind : (isIntLikeKind t.kind || decide (t.kind = Kind.string)) = true
             · simp only [hkind, Bool.not_true, Bool.false_eq_true, if_false]
               by_cases hany : (d.enumValues.any fun ev => equalFoldAscii val.reflectString ev.name) = true
               · simp only [hany, if_true]
                 have := enum_accept_conforms s hplain n nn p d hd hk val t hty hkind hany
-                exact ⟨this, this, this, fun _ => rfl⟩
+                exact ⟨hcr this, this⟩
               · simp [hany, ConfTriple]
             · simp [hkind, ConfTriple]
 
@@ -318,9 +435,9 @@ theorem jsonNumberPre_conforms_back (s : Schema) (typ : GType) (x rv : GoVal)
 
 /-- what one successful `coerceSupplied` stores, and what it implies about the supplied value -/
 theorem coerceSupplied_conforms (s : Schema) (hplain : EnumNamesPlain s) (op : OperationDef) (v : VarDef)
-    (acc c : GoFields) (x : GoVal) (ht : LeafTyped s v.type)
+    (acc c : GoFields) (x : GoVal) (ht : LeafTyped s v.type) (hwf : wfB x = true)
     (h : coerceSupplied s op v acc x = .ok c) :
-    (∃ y, c = acc.set v.var y ∧ CL s v.type y) ∧ CL s v.type x := by
+    (∃ y, c = acc.set v.var y ∧ CR s v.type y) ∧ CL s v.type x := by
   unfold coerceSupplied at h
   by_cases hn : x.isNil = true
   · have hx : x = .nil := (GoVal.isNil_iff x).mp hn
@@ -332,13 +449,17 @@ theorem coerceSupplied_conforms (s : Schema) (hplain : EnumNamesPlain s) (op : O
       cases h
       have : conformsWith .legacy s v.type .nil = true := by
         cases hv : v.type <;> simp_all [conformsWith, GType.nonNull]
-      exact ⟨⟨.nil, rfl, this⟩, this⟩
-  · simp only [hn, if_false] at h
+      have this' : conformsWith .afterR14d s v.type .nil = true := by
+        cases hv : v.type <;> simp_all [conformsWith, GType.nonNull]
+      exact ⟨⟨.nil, rfl, this'⟩, this⟩
+  · simp only [hn] at h
     cases hj : jsonNumberPre v.type x with
     | error m => simp [hj] at h
     | ok rv =>
       simp only [hj] at h
+      have hrv : rv ≠ .nil := jsonNumberPre_ne_nil (fun e => hn ((GoVal.isNil_iff x).mpr e)) hj
       have hg := validateVarType_conforms s hplain (fuelFor s op rv) (varPath v) v.type rv ht
+        (jsonNumberPre_wf hwf hj) (fun e => absurd e hrv)
       revert hg h
       cases validateVarType s (fuelFor s op rv) (varPath v) v.type rv with
       | ok pr =>
@@ -349,7 +470,7 @@ theorem coerceSupplied_conforms (s : Schema) (hplain : EnumNamesPlain s) (op : O
         · simp [hr] at h
         · simp [hr] at h
           subst h
-          exact ⟨⟨rval, rfl, hg.1⟩, jsonNumberPre_conforms_back s v.type x rv hj hg.2.2.1⟩
+          exact ⟨⟨rval, rfl, hg.1⟩, jsonNumberPre_conforms_back s v.type x rv hj hg.2⟩
       | err m p a => intro h _; simp at h
       | panic m => intro h _; simp at h
       | outOfFuel => intro h _; simp at h
